@@ -33,6 +33,7 @@ def gen_case(rng):
             "namespace": rng.choice(["", "", "app", "app::model"]),
             "policy": rng.choice(["debug", "release"]),
             "reg_order": rng.sample(range(n), n)}
+    case["slots_late"] = rng.random() < 0.5
     # definitions: tuples of classes derived from the parameter classes
     anc = ancestors(case)
     for m in meths:
@@ -85,9 +86,15 @@ def emit(case):
                "yorel::yomm2::policy::throw_error> {};" % case["policy"])
     out.append("#define YOMM2_DEFAULT_POLICY pol")
     out.append("#include <yorel/yomm2/keywords.hpp>")
-    out.append("#ifdef STAGE_B")
-    out.append("#include \"gen_slots.hpp\"")
-    out.append("#endif")
+    # the generated offsets must be visible "before these methods are
+    # called" (reference/generator.md): either ahead of everything, relying on
+    # the generated forward declarations, or after the method declarations
+    # (as tests/test_generator_domain.hpp does for one compiler)
+    late = case.get("slots_late", False)
+    if not late:
+        out.append("#ifdef STAGE_B")
+        out.append("#include \"gen_slots.hpp\"")
+        out.append("#endif")
     for part in (ns.split("::") if ns else []):
         out.append("namespace %s {" % part)
     for c in range(n):
@@ -106,6 +113,8 @@ def emit(case):
             params.insert(1 if len(params) > 1 else 0, "int")
         out.append("declare_method(int, m%d, (%s));" % (i, ", ".join(params)))
     out.append("#ifdef STAGE_B")
+    if late:
+        out.append("#include \"gen_slots.hpp\"")
     for i, m in enumerate(case["meths"]):
         params = ["virtual_<K%d&>" % p for p in m["vp"]]
         if m["extra_int"]:
